@@ -746,11 +746,16 @@ func (t *Tree) Compile(file string, args []string, out io.Writer) (err error) {
 					properties[i].s = set.NewSet()
 				}
 				for i, element := range n.Iterator2() {
-					consumes, properties[i].s = optimizeAlternates(element)
+					var c bool
+					c, properties[i].s = optimizeAlternates(element)
+					/* a choice consumes only if every alternative does */
+					consumes = consumes && c
 					s = s.Union(properties[i].s)
 				}
 
-				if firstPass {
+				/* an alternative that can match without consuming has no
+				   first character to dispatch on: leave the choice ordered */
+				if firstPass || !consumes {
 					break
 				}
 
